@@ -27,12 +27,48 @@ func init() {
 				"'above the limit' exactly when that stamp is set and not older than the interval.",
 			NotCovered: "that the ring buffer of golibs behaves as a ring (trusted), so that R7's structure (limit+1 slots, push before read, comparison with " +
 				"the interval) yields an exact sliding window; the expiry timing of the backoff tables (temporal facts outside static reach); the allowlist's own matching.",
-			Rules: map[string]string{"C09-R12": "DynamicAllowlist.IsAllowed: exempt exactly when some persistent or dynamic subnet contains the address; the dynamic part is read under the lock; constructor field map", "C09-R11": "list setters (DynamicAllowlist.Update, …) replace the list: no append onto the previous contents of the same field", "C09-R1": "middleware gate tables", "C09-R2": "limiter check order, family selection, keying", "C09-R3": "profile limiter table",
+			Rules: map[string]string{"C09-R13": "backendpb.RateLimitSettings.toInternal: the profile's own limiter exactly when present and enabled (an empty subnet list is not a reason to fall back to the global one)", "C09-R12": "DynamicAllowlist.IsAllowed: exempt exactly when some persistent or dynamic subnet contains the address; the dynamic part is read under the lock; constructor field map", "C09-R11": "list setters (DynamicAllowlist.Update, …) replace the list: no append onto the previous contents of the same field", "C09-R1": "middleware gate tables", "C09-R2": "limiter check order, family selection, keying", "C09-R3": "profile limiter table",
 				"C09-R4": "window counter under its lock", "C09-R9": "builder wiring: the configured allowlist is the persistent part of the dynamic allowlist", "C09-R8": "the dynamic allowlist is replaced only after a successful load (a failed refresh keeps the previous allowlist)", "C09-R7": "window counter structure: the ring holds limit+1 time stamps; every event (also one that is dropped) is pushed before the oldest one is read; the event is above the limit iff the oldest kept stamp is set and within the interval", "C09-R5": "every estimated response is counted", "C09-R6": "configuration-to-limiter field map (each family's count, interval and key length under its own name)"},
 		}})
 }
 
 func runC09(c *an.Ctx) {
+	// ---- R13: a profile's own limit is used exactly when it is present and enabled, whatever its client subnets are
+	c.Floor("C09-R13", 2)
+	if n := sharedCodecGuards(c, "C09-R13", nil, "backendpb.", "profiledb/internal/filecachepb."); n < 5 {
+		c.Und("C09-R13", "early returns of the profile codecs", token.NoPos, "only %d early returns found", n)
+	}
+	decide(c, "C09-R13", "backendpb.(*RateLimitSettings).toInternal", an.DecideCfg{
+		Dom: an.Domain{"p0": an.NilOrNot, "p0.Enabled": an.Bools},
+		OnCall: func(it *an.Interp, name string, args []an.AV) (an.AV, bool) {
+			switch {
+			case strings.HasSuffix(name, "agd.NewDefaultRatelimiter"):
+				return an.NonNil("own(" + args[0].String() + "," + args[1].String() + ")"), true
+			case strings.HasSuffix(name, "backendpb.cidrRangeToInternal"):
+				return an.Sym("nets(" + args[3].String() + ")"), true
+			}
+			return an.AV{}, false
+		},
+		Expect: func(f an.Features, o an.AOutcome) string {
+			if len(o.Ret) != 1 {
+				return "a limiter"
+			}
+			if f.IsNil("p0") || !f.B("p0.Enabled") {
+				if o.Ret[0].Dyn == "agd.GlobalRatelimiter" {
+					return ""
+				}
+				return "the global stub for absent or disabled settings; got " + o.RetString()
+			}
+			if !strings.HasPrefix(o.Ret[0].String(), "nonnil:own(") || !strings.HasSuffix(o.Ret[0].String(), ",p4)") {
+				return "the profile's own limiter (an empty client-subnet list means all clients), sized with the response-size estimate; got " + o.RetString() + " " + o.Ret[0].Dyn
+			}
+			k := strings.TrimPrefix(strings.Split(strings.TrimPrefix(o.Ret[0].String(), "nonnil:own("), ",")[0], "&")
+			if o.Mem[k+".RPS"].String() != "p0.Rps" || o.Mem[k+".ClientSubnets"].String() != "nets(p0.ClientCidr)" {
+				return "limit and client subnets taken from the message's own fields; got RPS=" + o.Mem[k+".RPS"].String() + " subnets=" + o.Mem[k+".ClientSubnets"].String()
+			}
+			return ""
+		},
+	})
 	c.Floor("C09-R12", 3)
 	c09AllowlistTable(c)
 	// ---- R11: an allowlist refresh replaces the dynamic part (a subnet dropped by the source stops being exempt)
@@ -665,6 +701,16 @@ func c09GetOrCreate(c *an.Ctx, rule string, fnNames ...string) {
 				continue
 			}
 			inserts++
+			// the entry lives for the table's own period: SetDefault, or Set with the default expiration (0)
+			defaultTTL := strings.HasSuffix(n, ").SetDefault")
+			if !defaultTTL && len(call.Common().Args) == 4 {
+				if k, isK := an.ConstInt(call.Common().Args[3]); isK && k == 0 {
+					defaultTTL = true
+				}
+			}
+			c.Check(defaultTTL, rule, name+" inserts into "+table+" with the table's own expiration", call.Pos(),
+				"the entry expires after the period the table was created with",
+				"the entry is inserted with an expiration of its own: the window counter (or the hit counter) is dropped and restarted after that time, whatever the configured period")
 			onMiss := false
 			for _, e := range an.DominatingConds(call.Block()) {
 				cond := e.If.Cond
